@@ -220,6 +220,15 @@ impl MinCostFlowSolver {
             .maximal_formation_count()
             .unwrap_or(100) as UpperBound;
 
+        // edges between nodes carry at most a full formation; edges from or to a maintenance slot
+        // must also be able to carry all vehicles that are assigned to that slot
+        let edge_capacity = maintenance_slots
+            .values()
+            .map(|&count| count as UpperBound)
+            .max()
+            .unwrap_or(0)
+            .max(maximal_formation_count_for_vehicle_type);
+
         let trip_node_count =
             self.network.service_nodes(vehicle_type).count() + self.network.depots_iter().count();
         // number of nodes in the flow network will be twice this number
@@ -343,17 +352,14 @@ impl MinCostFlowSolver {
                     + idle_time_cost;
 
                 cost_overflow_checker = cost_overflow_checker
-                    .checked_add(
-                        cost.checked_mul(maximal_formation_count_for_vehicle_type)
-                            .unwrap(),
-                    )
+                    .checked_add(cost.checked_mul(edge_capacity).unwrap())
                     .expect("overflow in cost_overflow_checker");
 
                 edges.insert(
                     builder.add_edge(pred_right_rsnode, *left_rsnode),
                     EdgeLabel {
                         lower_bound: 0,
-                        upper_bound: maximal_formation_count_for_vehicle_type,
+                        upper_bound: edge_capacity,
                         cost,
                     },
                 );
